@@ -282,6 +282,11 @@ pub fn extended_request(probe: &crate::universe::Probe, rc: &RouterConfig, ext: 
         7 => r.created_at = r.created_at.map(|t| t + chrono::Duration::microseconds(999_600)),
         8 => r.created_at = r.created_at.map(|t| t + chrono::Duration::nanoseconds(999_999_999)),
         // many headers: 130 / 1 100 fillers BEFORE the probe's own headers (the ones the rules look at come last)
+        // no authority, but a Host header naming a host some rules are bound to
+        11 => {
+            r.host = None;
+            r.headers.insert(0, Header { name: "Host".into(), value: "a.example".into() });
+        }
         9 | 10 => {
             let own: Vec<Header> = r.headers.clone();
             r.headers.clear();
@@ -425,7 +430,7 @@ pub fn run(tier: Tier) -> i32 {
         let probes = w.probes(0, &around);
         par_range(ctx.threads, probes.len(), |pi| {
             let probe = w.space.probe(&probes[pi]);
-            let exts: Vec<u8> = if pi % 5 == 0 { vec![0, 1, 2, 3, 4, 5, 6, 7, 8, 9] } else if pi % 7 == 0 { vec![0, 5, 6, 7, 9, 10] } else { vec![0, 5, 6, 7] };
+            let exts: Vec<u8> = if pi % 5 == 0 { vec![0, 1, 2, 3, 4, 5, 6, 7, 8, 9, 11] } else if pi % 7 == 0 { vec![0, 5, 6, 7, 9, 10, 11] } else { vec![0, 5, 6, 7] };
             for ext in exts {
                 let req = extended_request(&probe, &rc, ext);
                 ctx.eval(1);
